@@ -36,11 +36,11 @@ CLAIMED = {
          "Exact decision of the flag clause for all flag values; structural necessary conditions of the record/tag/header round trip. Does not decide equality of decode(encode(x)) with x.", "4/C03"),
  "C08": ("ordering enumeration of decideOnStep, symbolic sibling comparison Global/Local, traceback-delta agreement, must-pass-through clamp, may-write analysis",
          "Exact decisions of: label/candidate pairing in all 13 orderings, traceback offsets = fill predecessor offsets, argument order of every matrix lookup, gap-open shape, Local's clamp on every path, Local's start offsets, inputs never written. Does not decide score = re-score of steps as an equality.", "4/C08"),
- "C09": ("constant evaluation of the six shipped matrix literals (all 3456 entries), SSA shape of the Levenshtein initialiser, ordering enumeration, sibling comparison with gap-open abstracted to zero",
+ "C09": ("constant evaluation of the six shipped matrix literals (all 3456 entries), SSA shape of the Levenshtein initialiser (or constant folding of the package initialiser when its shape is another one), ordering enumeration, sibling comparison with gap-open abstracted to zero",
          "Exhaustive over all entries of every shipped table (complete, symmetric, gap-open 0, single assignment, who-may-write); decideOnStep returns a maximum in all 13 orderings; Global/Local recurrences agree. Does not decide optimality itself.", "4/C09"),
- "C12": ("table reconstruction from init SSA (256 entries), 256-point transfer function of complementByte, symbolic loop/sibling comparison, structural rules for CanonicalSubsequences (count, windows, min-selection)",
+ "C12": ("table reconstruction from init SSA (256 entries; by shape, or by constant folding of the package initialiser), 256-point transfer function of complementByte, symbolic loop/sibling comparison, structural rules for CanonicalSubsequences (count, windows, min-selection)",
          "Exact accept/panic boundary and complement for all 256 bytes; loop bounds and data flow of both reverse-complement functions; item count, window mirror and minimum selection of CanonicalSubsequences. Does not decide the reversal/strand symmetry as sequence equalities.", "4/C12"),
- "C13": ("table reconstruction from init SSA, finite-domain transfer functions for Ntoi/Iton, residue case split for the shift, two-input transfer function over all 1024 (value, position) points of the expansion table",
+ "C13": ("table reconstruction from init SSA (by shape, or by constant folding of the package initialiser), finite-domain transfer functions for Ntoi/Iton, residue case split for the shift, two-input transfer function over all 1024 (value, position) points of the expansion table",
          "Exhaustive for Ntoi (256 bytes), Iton (all integer regions), the shift/append residues and every entry of the 2-bit expansion table; -1 guard dominates packing. Does not decide the byte offset arithmetic of DNATo2Bit or the inverse laws as string equalities.", "4/C13"),
  "C14": ("constant evaluation of the codon and amino-acid literals against the NCBI table-1 oracle, 256-point transfer functions for the case folds, loop/exit structure of TranslateReadingFrames",
          "Exhaustive over 64 codons and, via the case-fold transfer function, over all 256^3 codon byte triples; exact accept set of AminoName over 256 bytes; all three frames produced for every length. Does not decide the concatenation law as an equality.", "4/C14"),
